@@ -45,6 +45,8 @@ type frame struct {
 	panicV    interface{}
 	visits    map[int]int
 	depth     int
+	mergedPhis    []Value
+	hasMergedPhis bool
 }
 
 func (fr *frame) get(v ssa.Value) Value {
@@ -111,7 +113,10 @@ func (p *Path) globalObj(g *ssa.Global) *Obj {
 
 func (p *Path) newObj(v Value, t types.Type, name string) *Obj {
 	p.nObj++
-	return &Obj{V: v, ID: p.nObj, Name: name, Typ: t}
+	if a, ok := v.(*ArrayV); ok && a.Mut {
+		a.born = p.nObj
+	}
+	return &Obj{V: v, ID: p.nObj, Name: name, Typ: t, owner: p}
 }
 
 func (p *Path) where(fr *frame, pos token.Pos) string {
@@ -168,6 +173,11 @@ func (p *Path) rv(fr *frame, v Value, pos token.Pos) Value {
 
 func (p *Path) callValue(fr *frame, fv Value, args []Value, pos token.Pos) Value {
 	f, ok := fv.(*FuncV)
+	if ok && f != nil && f.Nil != nil {
+		if p.forkBool(f.Nil, fr, pos) {
+			f = nil
+		}
+	}
 	if !ok || f == nil {
 		p.goPanic(fr, pos, "call of nil function")
 	}
@@ -189,6 +199,9 @@ func (p *Path) callFn(fr *frame, fn *ssa.Function, args []Value, env []Value, po
 		return p.callSSA(fr, repl, args, nil)
 	}
 	if ifn, ok := p.E.intrinsicFor(fn); ok {
+		if _, isAPI := p.E.apiFuncs[fn]; isAPI && p.side != nil && !apiPure[fn.Name()] {
+			panic(mergeAbort{"harness API call " + fn.Name()})
+		}
 		if _, isAPI := p.E.apiFuncs[fn]; !isAPI || !apiKeepsSymbolicNil[fn.Name()] {
 			for i, a := range args {
 				if iv, ok := a.(IfaceV); ok {
@@ -270,27 +283,7 @@ func (p *Path) runFrame(fr *frame) {
 		if fr.visits[blk.Index] > p.E.Cfg.MaxBlockVisits {
 			p.abort("inconclusive", fmt.Sprintf("unwinding limit: block %d of %s visited more than %d times", blk.Index, fr.fn, p.E.Cfg.MaxBlockVisits))
 		}
-		// phis first, in parallel
-		nphi := 0
-		var phiVals []Value
-		for _, in := range blk.Instrs {
-			phi, ok := in.(*ssa.Phi)
-			if !ok {
-				break
-			}
-			nphi++
-			idx := -1
-			for i, pred := range blk.Preds {
-				if pred == fr.prev {
-					idx = i
-					break
-				}
-			}
-			phiVals = append(phiVals, fr.get(phi.Edges[idx]))
-		}
-		for i := 0; i < nphi; i++ {
-			fr.env[blk.Instrs[i].(*ssa.Phi)] = phiVals[i]
-		}
+		nphi := p.assignPhis(fr, blk)
 		jumped := false
 		for _, in := range blk.Instrs[nphi:] {
 			p.steps++
@@ -312,6 +305,44 @@ func (p *Path) runFrame(fr *frame) {
 			panic("engine: block fell through: " + fr.fn.String())
 		}
 	}
+}
+
+// assignPhis evaluates the phi nodes of blk in parallel (or installs the values of a merge).
+func (p *Path) assignPhis(fr *frame, blk *ssa.BasicBlock) int {
+	nphi := 0
+	if fr.hasMergedPhis {
+		fr.hasMergedPhis = false
+		for _, in := range blk.Instrs {
+			phi, ok := in.(*ssa.Phi)
+			if !ok {
+				break
+			}
+			fr.env[phi] = fr.mergedPhis[nphi]
+			nphi++
+		}
+		fr.mergedPhis = nil
+		return nphi
+	}
+	var phiVals []Value
+	for _, in := range blk.Instrs {
+		phi, ok := in.(*ssa.Phi)
+		if !ok {
+			break
+		}
+		nphi++
+		idx := -1
+		for i, pred := range blk.Preds {
+			if pred == fr.prev {
+				idx = i
+				break
+			}
+		}
+		phiVals = append(phiVals, fr.get(phi.Edges[idx]))
+	}
+	for i := 0; i < nphi; i++ {
+		fr.env[blk.Instrs[i].(*ssa.Phi)] = phiVals[i]
+	}
+	return nphi
 }
 
 func zeroResults(fn *ssa.Function) Value {
@@ -440,8 +471,14 @@ func (p *Path) visit(fr *frame, instr ssa.Instruction) cont {
 				ipos = fr.block.Instrs[k].Pos()
 			}
 		}
-		if p.forkBool(c, fr, ipos) {
+		switch p.branch(fr, in, c, ipos) {
+		case brTrue:
 			succ = 0
+		case brFalse:
+		case brMergedJoin:
+			return kJump
+		case brMergedReturn:
+			return kReturn
 		}
 		fr.prev, fr.block = fr.block, fr.block.Succs[succ]
 		return kJump
@@ -658,7 +695,7 @@ func (p *Path) sliceOp(fr *frame, in *ssa.Slice) Value {
 				// large array used as slice backing store: switch to in-place updates
 				e := make([]Value, len(arr.E))
 				copy(e, arr.E)
-				s.O.V = &ArrayV{E: e, Mut: true}
+				s.O.V = &ArrayV{E: e, Mut: true, born: s.O.ID}
 			}
 			return SliceV{O: s.O, Off: lo, Len: hi - lo, Cap: mx - lo}
 		}
@@ -677,7 +714,8 @@ func (p *Path) viewObj(ptr PtrV) *Obj {
 	if o, ok := p.views[key]; ok {
 		return o
 	}
-	o := &Obj{ID: -1, Name: "view", V: nil}
+	o := &Obj{ID: -1, Name: "view", V: nil, owner: p}
+	p.sideMods++
 	p.nObj++
 	o.ID = p.nObj
 	p.views[key] = o
